@@ -5,6 +5,7 @@ import (
 	"sort"
 
 	"github.com/aclements/go-moremath/graph/graphalg"
+	"verif.local/simhook"
 )
 
 // setModel is the reference: a sorted set of non-negative integers.
@@ -104,7 +105,7 @@ func (c *ctx) marks() {
 		}
 	}
 
-	for e := 0; e < nev && c.viol == nil; e++ {
+	for e := 0; e < nev && c.viol == nil && !simhook.OverBudget(); e++ {
 		switch g.Pick(6, 3, 3, 3, 1) {
 		case 0: // Mark
 			i, cls := c.drawID(capBits)
